@@ -1158,6 +1158,87 @@ Section BatchProofs.
     destruct (WR sc1 d 0 (length ds)) as [sc2 rs] eqn:E. cbn. eapply writes_length; eauto.
   Qed.
 
+  (* ---- ids: every id in circulation was drawn from the counter, so a newly drawn id (counter + 1) is fresh --- *)
+  Definition occurs (st : state) (t : N) : Prop :=
+    (exists b r x, In r (consumed st b ++ chans st b) /\ In (x, Some t) (snd r)) \/
+    (exists e i acc x, In e (jobs st) /\ ep e = Work i acc /\ In (x, Some t) acc).
+
+  Definition ids_ok (st : state) : Prop := forall t, occurs st t -> (t <= counter st)%N.
+
+  Lemma ids_init : ids_ok INIT.
+  Proof.
+    intros t [(b & r & x & H & _)|(e & i & acc & x & H & _)]; cbn in H; contradiction.
+  Qed.
+
+  Lemma ids_step st st' : ids_ok st -> bstep st st' -> ids_ok st'.
+  Proof.
+    intros K S. destruct S;
+      try (intros t Ho; apply K; destruct Ho as [(b0 & r0 & x0 & Q1 & Q2)|(e0 & i0 & acc0 & x0 & Q1 & Q2 & Q3)];
+           [left; exists b0, r0, x0; auto|right; exists e0, i0, acc0, x0; auto]; fail).
+    - (* S_disp *)
+      intros t Ho. cbn [counter]. apply K. destruct Ho as [(b0 & r0 & x0 & Q1 & Q2)|(e0 & i0 & acc0 & x0 & Q1 & Q2 & Q3)].
+      + left. exists b0, r0, x0. auto.
+      + cbn [jobs] in Q1. apply in_app_or in Q1. destruct Q1 as [Q1|[<-|[]]]; [|discriminate].
+        right. exists e0, i0, acc0, x0. auto.
+    - (* S_begin *)
+      destruct (first_split _ _ _ H0) as (l1 & l2 & Hl & _ & _ & Hu & _).
+      intros t Ho. cbn [counter]. apply K. destruct Ho as [(b0 & r0 & x0 & Q2 & Q3)|(e0 & i0 & acc0 & x0 & Q2 & Q3 & Q4)].
+      + left. exists b0, r0, x0. auto.
+      + cbn [jobs] in Q2. rewrite Hu in Q2. apply in_app_or in Q2. destruct Q2 as [Q2|[<-|Q2]].
+        * right. exists e0, i0, acc0, x0. rewrite Hl. split; [apply in_or_app; now left|auto].
+        * cbn in Q3. injection Q3 as <- <-. destruct Q4.
+        * right. exists e0, i0, acc0, x0. rewrite Hl. split; [apply in_or_app; right; now right|auto].
+    - (* S_write *)
+      destruct (first_split _ _ _ H0) as (l1 & l2 & Hl & _ & _ & Hu & _).
+      intros t Ho. cbn [counter].
+      assert (Hold : forall t', occurs st t' -> (t' <= counter st + 1)%N) by (intros t' Ht'; specialize (K t' Ht'); lia).
+      destruct Ho as [(b0 & r0 & x0 & Q5 & Q6)|(e0 & i0 & acc0 & x0 & Q5 & Q6 & Q7)].
+      + apply Hold. left. exists b0, r0, x0. auto.
+      + cbn [jobs] in Q5. rewrite Hu in Q5. apply in_app_or in Q5. destruct Q5 as [Q5|[<-|Q5]].
+        * apply Hold. right. exists e0, i0, acc0, x0. rewrite Hl. split; [apply in_or_app; now left|auto].
+        * cbn in Q6. injection Q6 as <- <-. apply in_app_or in Q7. destruct Q7 as [Q7|[Q7|[]]].
+          -- apply Hold. right. exists e, i, acc, x0. rewrite Hl. split; [apply in_or_app; right; now left|auto].
+          -- injection Q7 as _ Q7. destruct created; [injection Q7 as <-; lia|discriminate].
+        * apply Hold. right. exists e0, i0, acc0, x0. rewrite Hl. split; [apply in_or_app; right; now right|auto].
+    - (* S_send *)
+      destruct (first_split _ _ _ H0) as (l1 & l2 & Hl & _ & _ & Hu & _).
+      intros t Ho. cbn [counter]. apply K. destruct Ho as [(b0 & r0 & x0 & Q5 & Q6)|(e0 & i0 & acc0 & x0 & Q5 & Q6 & Q7)].
+      + cbn [consumed chans] in Q5. destruct (Nat.eq_dec b0 (jb (ej e))) as [->|Hne].
+        * rewrite upd_same in Q5. apply in_app_or in Q5. destruct Q5 as [Q5|[<-|[]]].
+          -- left. exists (jb (ej e)), r0, x0. split; [apply in_or_app; now left|auto].
+          -- right. exists e, i, acc, x0. rewrite Hl. split; [apply in_or_app; right; now left|auto].
+        * rewrite upd_other in Q5 by exact Hne. left. exists b0, r0, x0. auto.
+      + cbn [jobs] in Q5. rewrite Hu in Q5. apply in_app_or in Q5. destruct Q5 as [Q5|[<-|Q5]].
+        * right. exists e0, i0, acc0, x0. rewrite Hl. split; [apply in_or_app; now left|auto].
+        * discriminate.
+        * right. exists e0, i0, acc0, x0. rewrite Hl. split; [apply in_or_app; right; now right|auto].
+    - (* S_dec *)
+      destruct (first_split _ _ _ H0) as (l1 & l2 & Hl & _ & _ & _ & Hr).
+      intros t Ho. cbn [counter]. apply K. destruct Ho as [(b0 & r0 & x0 & Q5 & Q6)|(e0 & i0 & acc0 & x0 & Q5 & Q6 & Q7)].
+      + left. exists b0, r0, x0. auto.
+      + cbn [jobs] in Q5. rewrite Hr in Q5. right. exists e0, i0, acc0, x0. rewrite Hl.
+        split; [|auto]. apply in_app_or in Q5. apply in_or_app. destruct Q5; [now left|right; now right].
+    - (* S_consume *)
+      intros t Ho. cbn [counter]. apply K. destruct Ho as [(b0 & r0 & x0 & Q5 & Q6)|(e0 & i0 & acc0 & x0 & Q5 & Q6 & Q7)].
+      + cbn [consumed chans] in Q5. left. destruct (Nat.eq_dec b0 b) as [->|Hne].
+        * rewrite !upd_same in Q5. exists b, r0, x0. rewrite H. rewrite <- app_assoc in Q5. auto.
+        * rewrite !upd_other in Q5 by exact Hne. exists b0, r0, x0. auto.
+      + right. exists e0, i0, acc0, x0. auto.
+  Qed.
+
+  Lemma ids_bounded_lemma sigma st t : RUN INIT sigma = Some st -> occurs st t -> (t <= counter st)%N.
+  Proof.
+    intros H. revert t. change (ids_ok st). revert H. generalize ids_init. generalize INIT.
+    induction sigma as [|l sigma IH]; intros s0 K H; cbn in H.
+    - now injection H as <-.
+    - destruct (FIRE s0 l) as [s1|] eqn:E; [|discriminate].
+      apply (IH s1); [|exact H]. eapply ids_step; [exact K|]. eapply fire_step; eauto.
+  Qed.
+
+  Lemma counter_step_lemma st l st' :
+    FIRE st l = Some st' -> counter st' = counter st \/ counter st' = (counter st + 1)%N.
+  Proof. intro H. apply fire_step in H. destruct H; cbn [counter]; auto. Qed.
+
   (* ---- scene locality of the steps ---------------------------------------------------------------- *)
   Definition touched (st : state) (l : blabel) : option N :=
     match l with
